@@ -558,3 +558,307 @@ Proof.
   intros i Hi. apply Forall_vn_nonneg; [|now rewrite Hwl].
   destruct w; [exact Hw | apply Forall_repeat_1].
 Qed.
+
+(* ====================================================================== *)
+(* LOESS: the window search                                                *)
+(* ====================================================================== *)
+Definition mono_pred (f : nat -> bool) : Prop := forall a b, (a <= b)%nat -> f a = true -> f b = true.
+
+Lemma half_bounds i j : (i < j)%nat -> (i <= (i + j) / 2 < j)%nat.
+Proof.
+  intros H. pose proof (Nat.div_mod (i + j) 2 ltac:(lia)) as E.
+  pose proof (Nat.mod_upper_bound (i + j) 2 ltac:(lia)). lia.
+Qed.
+
+(* sort.Search with a monotone predicate returns the least index where it holds (or the upper end) *)
+Lemma bsearch_spec f (Hm : mono_pred f) fuel : forall i j, (j - i <= fuel)%nat -> (i <= j)%nat ->
+  let r := bsearch fuel f i j in
+  (i <= r <= j)%nat /\ (forall l, (i <= l < r)%nat -> f l = false) /\ ((r < j)%nat -> f r = true).
+Proof.
+  induction fuel as [|fu IH]; intros i j Hf Hij; cbn [bsearch].
+  - repeat split; try lia; intros l Hl; lia.
+  - destruct (i <? j)%nat eqn:E.
+    + apply Nat.ltb_lt in E. pose proof (half_bounds i j E) as Hh. set (h := ((i + j) / 2)%nat) in *.
+      destruct (f h) eqn:Fh.
+      * destruct (IH i h ltac:(lia) ltac:(lia)) as (B & Lo & Hi). repeat split; try lia; [exact Lo|].
+        intros _. destruct (Nat.eq_dec (bsearch fu f i h) h) as [->|N]; [exact Fh | apply Hi; lia].
+      * destruct (IH (S h) j ltac:(lia) ltac:(lia)) as (B & Lo & Hi). repeat split; try lia; [|exact Hi].
+        intros l Hl. destruct (Nat.le_gt_cases l h) as [Hle|Hgt]; [|apply Lo; lia].
+        destruct (f l) eqn:Fl; [|reflexivity]. rewrite (Hm l h Hle Fl) in Fh. discriminate.
+    + apply Nat.ltb_ge in E. repeat split; try lia; intros l Hl; lia.
+Qed.
+Lemma search_spec f n : mono_pred f ->
+  let r := search n f in (r <= n)%nat /\ (forall l, (l < r)%nat -> f l = false) /\ ((r < n)%nat -> f r = true).
+Proof.
+  intros Hm. unfold search. destruct (bsearch_spec f Hm n 0 n ltac:(lia) ltac:(lia)) as (B & Lo & Hi).
+  repeat split; [lia | intros l Hl; apply Lo; lia | exact Hi].
+Qed.
+
+(* sortedness, by index *)
+Definition sorted_idx (xs : list Q) : Prop :=
+  forall i j a b, (i <= j)%nat -> nth_error xs i = Some a -> nth_error xs j = Some b -> a <= b.
+
+Lemma sorted_idx_tail a t : sorted_idx (a :: t) -> sorted_idx t.
+Proof. intros H i j x y Hij Hi Hj. apply (H (S i) (S j)); [lia | exact Hi | exact Hj]. Qed.
+Lemma sorted_idx_cons a t : (forall b, In b t -> a <= b) -> sorted_idx t -> sorted_idx (a :: t).
+Proof.
+  intros Ha Ht [|i] [|j] x y Hij Hi Hj; cbn in Hi, Hj.
+  - inversion Hi; inversion Hj; subst. apply Qle_refl.
+  - inversion Hi; subst. apply Ha. eapply nth_error_In; eassumption.
+  - lia.
+  - apply (Ht i j); [lia | exact Hi | exact Hj].
+Qed.
+Lemma sortedb_sorted_idx xs : sortedb xs = true -> sorted_idx xs.
+Proof.
+  induction xs as [|a t IH]; intros H.
+  - intros i j x y _ Hi. destruct i; discriminate.
+  - destruct t as [|b t'].
+    + intros [|i] [|j] x y Hij Hi Hj; cbn in Hi, Hj; try (destruct i; discriminate); try (destruct j; discriminate).
+      inversion Hi; inversion Hj; subst. apply Qle_refl.
+    + cbn [sortedb] in H. apply andb_prop in H as [H1 H2]. apply negb_true_iff in H1.
+      assert (Hab : a <= b).
+      { unfold Qltb in H1. apply negb_false_iff in H1. now apply Qle_bool_iff in H1. }
+      specialize (IH H2). apply sorted_idx_cons; [|exact IH].
+      intros c Hc. apply In_nth_error in Hc as [m Hm].
+      apply Qle_trans with b; [exact Hab|]. apply (IH O m b c); [lia | reflexivity | exact Hm].
+Qed.
+
+Lemma window_pred_exact xs q x i a b : nth_error xs i = Some a -> nth_error xs (i + q) = Some b ->
+  (window_pred 0 xs q x i = true <-> x * 2 <= a + b).
+Proof.
+  intros Ha Hb. unfold window_pred. rewrite Ha, Hb. rewrite Qle_bool_iff.
+  setoid_replace (a + b + 0 * Qabs (a + b)) with (a + b) by ring. reflexivity.
+Qed.
+Lemma window_pred_mono xs q x : sorted_idx xs -> mono_pred (window_pred 0 xs q x).
+Proof.
+  intros Hs i i' Hii H.
+  destruct (nth_error xs i') as [a'|] eqn:Ea'; [|unfold window_pred; now rewrite Ea'].
+  destruct (nth_error xs (i' + q)) as [b'|] eqn:Eb'; [|unfold window_pred; now rewrite Ea', Eb'].
+  assert (Hlen : (i' + q < length xs)%nat) by (apply nth_error_Some; congruence).
+  destruct (nth_error xs i) as [a|] eqn:Ea; [|apply nth_error_None in Ea; lia].
+  destruct (nth_error xs (i + q)) as [b|] eqn:Eb; [|apply nth_error_None in Eb; lia].
+  apply (window_pred_exact xs q x i' a' b' Ea' Eb'). apply (window_pred_exact xs q x i a b Ea Eb) in H.
+  pose proof (Hs i i' a a' Hii Ea Ea'). pose proof (Hs (i + q)%nat (i' + q)%nat b b' ltac:(lia) Eb Eb'). lra.
+Qed.
+
+Lemma Qabs_le_of a b : - b <= a -> a <= b -> Qabs a <= b.
+Proof. intros H1 H2. apply Qabs_Qle_condition. split; assumption. Qed.
+
+(* the window chosen by the binary search is a set of q nearest points to x:
+   no point outside the window is nearer to x than a point inside *)
+Theorem loess_window xs q x : sorted_idx xs -> (0 < q <= length xs)%nat ->
+  let n0 := window_start 0 xs q x in
+  (n0 + q <= length xs)%nat /\
+  forall j k a b, (n0 <= j < n0 + q)%nat -> (k < n0 \/ n0 + q <= k)%nat ->
+    nth_error xs j = Some a -> nth_error xs k = Some b -> Qabs (a - x) <= Qabs (b - x).
+Proof.
+  intros Hs Hq n0. unfold window_start in n0.
+  destruct (q <? length xs)%nat eqn:E.
+  - apply Nat.ltb_lt in E.
+    destruct (search_spec (window_pred 0 xs q x) (length xs - q) (window_pred_mono xs q x Hs)) as (B & Lo & Hi).
+    fold n0 in B, Lo, Hi. split; [lia|].
+    intros j k a b Hj Hk Ea Eb. destruct Hk as [Hk|Hk].
+    + (* a point left of the window *)
+      assert (F : window_pred 0 xs q x (n0 - 1) = false) by (apply Lo; lia).
+      destruct (nth_error xs (n0 - 1)) as [L|] eqn:EL; [|apply nth_error_None in EL; lia].
+      destruct (nth_error xs (n0 - 1 + q)) as [R|] eqn:ER; [|apply nth_error_None in ER; lia].
+      assert (HLR : ~ x * 2 <= L + R).
+      { intro C. apply (window_pred_exact xs q x _ L R EL ER) in C. congruence. }
+      pose proof (Hs k (n0 - 1)%nat b L ltac:(lia) Eb EL).
+      pose proof (Hs (n0 - 1)%nat j L a ltac:(lia) EL Ea).
+      pose proof (Hs j (n0 - 1 + q)%nat a R ltac:(lia) Ea ER).
+      apply Qle_trans with (x - b); [apply Qabs_le_of; lra|].
+      setoid_replace (x - b) with (- (b - x)) by ring. rewrite <- Qabs_opp. apply Qle_Qabs.
+    + (* a point right of the window *)
+      assert (Hk' : (k < length xs)%nat) by (apply nth_error_Some; congruence).
+      assert (F : window_pred 0 xs q x n0 = true) by (apply Hi; lia).
+      destruct (nth_error xs n0) as [L|] eqn:EL; [|apply nth_error_None in EL; lia].
+      destruct (nth_error xs (n0 + q)) as [R|] eqn:ER; [|apply nth_error_None in ER; lia].
+      apply (window_pred_exact xs q x _ L R EL ER) in F.
+      pose proof (Hs (n0 + q)%nat k R b ltac:(lia) ER Eb).
+      pose proof (Hs n0 j L a ltac:(lia) EL Ea).
+      pose proof (Hs j (n0 + q)%nat a R ltac:(lia) Ea ER).
+      apply Qle_trans with (b - x); [apply Qabs_le_of; lra | apply Qle_Qabs].
+  - apply Nat.ltb_ge in E. subst n0. split; [lia|].
+    intros j k a b Hj Hk Ea Eb. assert (k < length xs)%nat by (apply nth_error_Some; congruence). lia.
+Qed.
+
+(* ====================================================================== *)
+(* LOESS: sorting, weights, the local fit                                  *)
+(* ====================================================================== *)
+Fixpoint lsorted (l : list Q) : Prop :=
+  match l with [] => True | a :: t => (forall b, In b t -> a <= b) /\ lsorted t end.
+
+Lemma lsorted_sorted_idx l : lsorted l -> sorted_idx l.
+Proof.
+  induction l as [|a t IH]; intros H.
+  - intros i j x y _ Hi. destruct i; discriminate.
+  - destruct H as [Ha Ht]. apply sorted_idx_cons; auto.
+Qed.
+Lemma sortedb_lsorted xs : sortedb xs = true -> lsorted xs.
+Proof.
+  induction xs as [|a t IH]; intros H; [exact I|]. destruct t as [|b t'].
+  - split; [intros b []|exact I].
+  - cbn [sortedb] in H. apply andb_prop in H as [H1 H2]. apply negb_true_iff in H1.
+    assert (Hab : a <= b). { unfold Qltb in H1. apply negb_false_iff in H1. now apply Qle_bool_iff in H1. }
+    specialize (IH H2). split; [|exact IH]. intros c [<-|Hc]; [exact Hab|].
+    destruct IH as [Hb _]. apply Qle_trans with b; [exact Hab | now apply Hb].
+Qed.
+Lemma lsorted_skipn m l : lsorted l -> lsorted (skipn m l).
+Proof. revert l. induction m as [|m IH]; intros [|a t] H; cbn [skipn]; auto. apply IH. apply H. Qed.
+Lemma In_firstn {A} m (l : list A) z : In z (firstn m l) -> In z l.
+Proof. intros H. rewrite <- (firstn_skipn m l). apply in_or_app. now left. Qed.
+Lemma lsorted_firstn m l : lsorted l -> lsorted (firstn m l).
+Proof.
+  revert l. induction m as [|m IH]; intros [|a t] H; cbn [firstn]; try exact I.
+  destruct H as [Ha Ht]. split; [|now apply IH]. intros b Hb. apply Ha. eapply In_firstn; eassumption.
+Qed.
+Lemma last_In (l : list Q) d : l <> [] -> In (last l d) l.
+Proof.
+  induction l as [|a [|b t] IH]; intros H; [congruence | now left |].
+  right. apply IH. discriminate.
+Qed.
+Lemma lsorted_last l c : lsorted l -> In c l -> c <= last l 0.
+Proof.
+  induction l as [|a t IH]; intros H Hc; [destruct Hc|]. destruct H as [Ha Ht]. destruct t as [|b t'].
+  - destruct Hc as [<-|[]]. apply Qle_refl.
+  - change (last (a :: b :: t') 0) with (last (b :: t') 0). destruct Hc as [<-|Hc].
+    + apply Ha. apply last_In. discriminate.
+    + now apply IH.
+Qed.
+
+Lemma insert_pair_In p l z : In z (insert_pair p l) <-> z = p \/ In z l.
+Proof.
+  induction l as [|h t IH]; cbn [insert_pair].
+  - cbn. intuition.
+  - destruct (Qltb (fst p) (fst h)); cbn [In]; [intuition|]. rewrite IH. intuition.
+Qed.
+Lemma Qltb_false_le a b : Qltb a b = false -> b <= a.
+Proof. unfold Qltb. intros H. apply negb_false_iff in H. now apply Qle_bool_iff. Qed.
+Lemma Qltb_true_lt a b : Qltb a b = true -> a < b.
+Proof. unfold Qltb. intros H. apply negb_true_iff in H. apply Qnot_le_lt. intro C. apply Qle_bool_iff in C. congruence. Qed.
+
+Lemma insert_pair_lsorted p l : lsorted (map fst l) -> lsorted (map fst (insert_pair p l)).
+Proof.
+  induction l as [|h t IH]; intros H; cbn [insert_pair].
+  - cbn. split; [intros b []|exact I].
+  - destruct (Qltb (fst p) (fst h)) eqn:E.
+    + apply Qltb_true_lt in E. cbn [map lsorted] in *. destruct H as [Hh Ht]. split; [|split; assumption].
+      intros b [<-|Hb]; [now apply Qlt_le_weak|]. apply Qle_trans with (fst h); [now apply Qlt_le_weak | now apply Hh].
+    + apply Qltb_false_le in E. cbn [map lsorted] in *. destruct H as [Hh Ht]. split; [|now apply IH].
+      intros b Hb. apply in_map_iff in Hb as (z & <- & Hz). apply insert_pair_In in Hz as [->|Hz]; [exact E|].
+      apply Hh. now apply in_map.
+Qed.
+Lemma sort_pairs_lsorted l : lsorted (map fst (sort_pairs l)).
+Proof. induction l as [|p t IH]; cbn [sort_pairs]; [exact I | now apply insert_pair_lsorted]. Qed.
+Lemma insert_pair_perm p l : Permutation (p :: l) (insert_pair p l).
+Proof.
+  induction l as [|h t IH]; cbn [insert_pair]; [reflexivity|].
+  destruct (Qltb (fst p) (fst h)); [reflexivity|]. rewrite perm_swap. now apply perm_skip.
+Qed.
+Lemma sort_pairs_perm l : Permutation l (sort_pairs l).
+Proof.
+  induction l as [|p t IH]; cbn [sort_pairs]; [reflexivity|].
+  rewrite <- insert_pair_perm. now apply perm_skip.
+Qed.
+Lemma combine_fst_snd (l : list (Q * Q)) : combine (map fst l) (map snd l) = l.
+Proof. induction l as [|[a b] t IH]; cbn; [reflexivity | now rewrite IH]. Qed.
+
+Lemma prepare_spec xs ys sx sy : length xs = length ys -> loess_prepare xs ys = (sx, sy) ->
+  lsorted sx /\ length sx = length xs /\ length sy = length xs /\ Permutation (combine xs ys) (combine sx sy).
+Proof.
+  intros Hl. unfold loess_prepare. destruct (sortedb xs) eqn:E; intros H; inversion H; subst; clear H.
+  - repeat split; auto. now apply sortedb_lsorted.
+  - pose proof (sort_pairs_perm (combine xs ys)) as P.
+    assert (L : length (sort_pairs (combine xs ys)) = length xs).
+    { rewrite <- (Permutation_length P), combine_length, <- Hl. apply Nat.min_id. }
+    repeat split; [apply sort_pairs_lsorted | now rewrite map_length | now rewrite map_length |].
+    now rewrite combine_fst_snd.
+Qed.
+
+Lemma tricube_nonneg x d c : 0 < d -> Qabs (x - c) <= d -> 0 <= tricube x d c.
+Proof.
+  intros Hd Ha. unfold tricube. rewrite Qred_correct.
+  set (u := Qabs (x - c) / d).
+  assert (H0 : 0 <= u) by (apply Qle_shift_div_l; [exact Hd | rewrite Qmult_0_l; apply Qabs_nonneg]).
+  assert (H1 : u <= 1) by (apply Qle_shift_div_r; [exact Hd | now rewrite Qmult_1_l]).
+  assert (H2 : u * u <= 1) by nra.
+  assert (H3 : 0 <= 1 - u * u * u) by nra.
+  generalize dependent (1 - u * u * u). intros t Ht. nra.
+Qed.
+
+(* the local design: the window of q points from n0, with tricube weights relative to the distance d
+   of the farthest window point *)
+Lemma loess_design_spec sx sy q n0 x cx cy w : lsorted sx -> loess_design sx sy q n0 x = FOk (cx, cy, w) ->
+  cx = firstn q (skipn n0 sx) /\ cy = firstn q (skipn n0 sy) /\
+  exists d, 0 < d /\ (forall c, In c cx -> Qabs (x - c) <= d) /\ (exists c, In c cx /\ Qabs (x - c) == d) /\
+            w = map (tricube x d) cx.
+Proof.
+  intros Hs. unfold loess_design. set (wx := firstn q (skipn n0 sx)). set (wy := firstn q (skipn n0 sy)).
+  assert (Hws : lsorted wx) by (apply lsorted_firstn, lsorted_skipn, Hs).
+  destruct wx as [|c0 rest] eqn:Ewx; [discriminate|].
+  set (d0 := x - c0). set (d1 := last (c0 :: rest) 0 - x).
+  set (d := if Qltb d0 d1 then d1 else d0).
+  destruct (Qeqb d 0) eqn:Ed; [discriminate|]. intros H; inversion H; subst cx cy w; clear H.
+  split; [reflexivity|]. split; [reflexivity|]. exists d.
+  assert (Hdn : ~ d == 0) by (intro C; apply Qeqb_true in C; congruence).
+  assert (Hc0 : forall c, In c (c0 :: rest) -> c0 <= c).
+  { intros c [<-|Hc]; [apply Qle_refl | now apply Hws]. }
+  assert (Hl : forall c, In c (c0 :: rest) -> c <= last (c0 :: rest) 0) by (intros c Hc; now apply lsorted_last).
+  assert (Hsum : 0 <= d0 + d1).
+  { unfold d0, d1. pose proof (Hl c0 (or_introl eq_refl)). lra. }
+  assert (Hd01 : d0 <= d /\ d1 <= d /\ (d == d0 \/ d == d1)).
+  { unfold d. destruct (Qltb d0 d1) eqn:E.
+    - apply Qltb_true_lt in E. split; [lra | split; [lra | right; reflexivity]].
+    - apply Qltb_false_le in E. split; [lra | split; [lra | left; reflexivity]]. }
+  destruct Hd01 as (Hd0 & Hd1 & Hdd).
+  assert (Hdpos : 0 < d) by (destruct (Qlt_le_dec 0 d) as [|C]; [assumption | exfalso; apply Hdn; lra]).
+  split; [exact Hdpos|]. split; [|split; [|reflexivity]].
+  - intros c Hc. specialize (Hc0 c Hc). specialize (Hl c Hc). apply Qabs_le_of; unfold d0, d1 in *; lra.
+  - destruct Hdd as [E|E].
+    + exists c0. split; [now left|]. rewrite E. unfold d0. apply Qabs_pos. unfold d0 in *. lra.
+    + exists (last (c0 :: rest) 0). split; [apply last_In; discriminate|]. rewrite E. unfold d1.
+      setoid_replace (x - last (c0 :: rest) 0) with (- (last (c0 :: rest) 0 - x)) by ring.
+      rewrite Qabs_opp. apply Qabs_pos. unfold d1 in *. lra.
+Qed.
+
+Lemma loess_inv xs ys deg span x beta v : loess xs ys (Z.of_nat deg) span x = FOk (beta, v) ->
+  exists sx sy cx cy w, loess_prepare xs ys = (sx, sy) /\ 0 < span /\
+    let q := loess_q (length xs) span in let n0 := window_start 0 sx q x in
+    loess_design sx sy q n0 x = FOk (cx, cy, w) /\
+    polyreg cx cy (Some w) (Z.of_nat deg) = FOk beta /\ polyF beta x = Some v.
+Proof.
+  unfold loess. destruct (Z.of_nat deg <? 0)%Z; [discriminate|].
+  destruct (Qle_bool span 0) eqn:Es; [discriminate|].
+  destruct (loess_prepare xs ys) as [sx sy] eqn:Ep. unfold loess_at.
+  destruct (loess_design sx sy _ _ x) as [[[cx cy] w]| |] eqn:Ed; try discriminate.
+  destruct (polyreg cx cy (Some w) (Z.of_nat deg)) as [b| |] eqn:Er; try discriminate.
+  destruct (polyF b x) as [v'|] eqn:Ef; [|discriminate]. intros H; inversion H; subst.
+  exists sx, sy, cx, cy, w. repeat split; auto.
+  apply Qnot_le_lt. intro C. apply Qle_bool_iff in C. congruence.
+Qed.
+
+(* LOESS(x) is the tricube-weighted least-squares polynomial of the window, evaluated at x *)
+Theorem loess_is_local_tricube_fit xs ys deg span x beta v :
+  length xs = length ys -> loess xs ys (Z.of_nat deg) span x = FOk (beta, v) ->
+  exists sx sy cx cy w d,
+    loess_prepare xs ys = (sx, sy) /\
+    (let q := loess_q (length xs) span in let n0 := window_start 0 sx q x in
+     cx = firstn q (skipn n0 sx) /\ cy = firstn q (skipn n0 sy)) /\
+    0 < d /\ (forall c, In c cx -> Qabs (x - c) <= d) /\ (exists c, In c cx /\ Qabs (x - c) == d) /\
+    w = map (tricube x d) cx /\ Forall (Qle 0) w /\
+    length beta = S deg /\
+    (forall beta', length beta' = S deg ->
+       SSR (monomials deg cx) w cy beta <= SSR (monomials deg cx) w cy beta') /\
+    v == poly_eval beta x.
+Proof.
+  intros Hl H. apply loess_inv in H as (sx & sy & cx & cy & w & Ep & Hspan & Hd & Hr & Hf).
+  destruct (prepare_spec xs ys sx sy Hl Ep) as (Hs & _).
+  destruct (loess_design_spec _ _ _ _ _ _ _ _ Hs Hd) as (Ecx & Ecy & d & Hdpos & Hdist & Hfar & Ew).
+  assert (Hwn : Forall (Qle 0) w).
+  { rewrite Ew, Forall_forall. intros t Ht. apply in_map_iff in Ht as (c & <- & Hc). apply tricube_nonneg; auto. }
+  rewrite polyreg_is_lls_on_monomials in Hr.
+  destruct (lls_minimises _ _ _ _ _ Hr (monomials_cols deg cx) Hwn) as (Hb & _ & Hmin).
+  rewrite monomials_len in Hb, Hmin. cbn [weights_or_ones] in Hmin.
+  exists sx, sy, cx, cy, w, d. repeat split; auto. now apply F_is_poly_eval.
+Qed.
